@@ -14,6 +14,18 @@ CHECKS = {
             "Coordinates limited to -2..3 and dimension <=4; numpy's ravel_multi_index as reference.", "6 C19"),
 }
 
+CHECKS.update({
+    "C01": ("boxmc", "bounded-exhaustive enumeration of tiny-MDP alphabets x solver/test rows x gamma x eps (+ secondary axes) on real solvers, exact v*/v^pi oracle",
+            "Every member of the enumerated sub-products (canonical 1-2 state MDP alphabets, tie family, block packs; 5 solver/test rows; gamma, eps; encodings, scales, initial values/policies, batch sizes, shuffle seeds) is a real solve() on a fresh solver; the returned policy is evaluated exactly by linear solve and compared with exact v* against the stated a-priori bounds. Largest observed error/bound ratio per bound is reported so vacuity is visible.",
+            "Small-scope: MDPs with <=3 states (plus block-packed unions up to ~1200 states); gamma/eps grids; single device (C03 covers devices). PI bounds asserted only when the returned (V,pi) pass the evaluation stopping test.", "6 C01"),
+    "C02": ("boxmc", "bounded-exhaustive enumeration of Bellman-backup rows (row alphabets R(A,E), block-packed M2d/M2s x W^2) through the real sweep kernel and solve(1)",
+            "Every row of the row alphabets (all probability patterns x rewards x successor values, 3.3e5 rows for R(2,2)) and every MDP of M2d/M2s with every value vector in W^2 goes through the real sweep (private kernel with injected vector, and public solve(1) from initial_value) and real policy extraction; compared with the numpy backup; monotonicity, contraction and shift are checked on the real outputs for all ordered pairs.",
+            "Dyadic alphabets; float64; single device; any maximiser accepted for the policy.", "6 C02"),
+    "C08": ("histmc", "explicit-state exploration of all solve(k) histories (k in {1,2,3,5}, depth 2/3) on real solvers against a reference state machine, with state-merge (composability) assertions",
+            "All 4^d histories per instance are executed on fresh real solvers (VI span/max_diff, RVI, periodic VI, semi-async fixed order); after every call iteration count, values (= n reference backups), gain, greedy policy and the stop/continue decision are compared with a reference machine implementing the documented rule; histories reaching the same iteration must hold the same state. An all-dyadic family puts the measure exactly at the threshold to decide '<' versus '<='.",
+            "Instances with reference stopping iteration 1..9; borderline decisions (within 1e-9 relative, except exact dyadic ties) are skipped and counted.", "6 C08"),
+})
+
 PENDING = {}
 
 
